@@ -218,6 +218,39 @@ def comps_of(circuit):
     return res
 
 
+def joined_block(case):
+    """C04, structure-level API: a sub-circuit with an EXPLICIT relation (FOLLOWED_BY / JOINED_START / JOINED_END) to an earlier
+    operation, holding first operations of different lengths on different qubits, optionally an inner follower, optionally an
+    operation added after it.  Observed twice on fresh builds: listing then durations, and durations first."""
+    def build():
+        c = DeclarativeCircuit()
+        w = lambda q, d: co.Wait(q, duration_strategy=FixedDurationStrategy(d))
+        x = c.add(w(0, case['d0']))
+        block = CircuitCompositeOperation(relation=RelationLink(x, RT[case['rel']]), repetition_strategy=FixedRepetitionStrategy(case['reps']))
+        for i, d in enumerate(case['firsts']):
+            block.add(w(i + 1, d))
+        if case['follow']:
+            block.add(w(1, 1.0))
+        c.circuit_structure.add(block)
+        if case['tail']:
+            c.add(w(1, 0.5))
+        return c
+    out = {}
+    clear_caches()
+    c1 = build()
+    ops = observe(c1)
+    out['jb1'] = {'ops': ops, 'duration': ticks(c1.duration), 'comps': comps_of(c1)}
+    clear_caches()
+    c2 = build()
+    # durations are queried before the first listing (memoised times must not survive the hand-off); what is REPORTED is read after
+    # the listing: for JOINED_END the hand-off re-aligns the first operations one by one, so the layout before and after differ (F23)
+    _ = [ticks(c2.duration)] + [ticks(sc.duration) for sc in c2.composite_operations]
+    ops2 = observe(c2)
+    out['jb2'] = {'ops': ops2, 'duration': ticks(c2.duration), 'comps': comps_of(c2)}
+    clear_caches()
+    return out
+
+
 def handle(case):
     if case.get('k') == 'deep':       # a chain at the documented depth limit: only the number of listed operations is observed
         c = DeclarativeCircuit()
@@ -228,6 +261,8 @@ def handle(case):
     if case.get('k') in ('repcode', 'simplified', 'multi', 'calib'):      # library-built circuits
         import lib_impl
         return lib_impl.handle(case)
+    if case.get('k') == 'jb':
+        return joined_block(case)
     env = {GlobalRegistryKey[k]: v for k, v in case['env'].items()}
     out = {}
     want = case.get('obs', ['plain', 'plain_dur_first', 'unrolled'])
